@@ -31,7 +31,7 @@ def split_name(name):
     return parts[0], '/'.join(parts[1:-1]), parts[-1]
 
 
-def check_operator(ctx, name, A, rng, comp=None, variant=None):
+def check_operator(ctx, name, A, rng, comp=None, variant=None, lin_tol=1e-9):
     if comp is None:
         comp, variant, _tag = split_name(name)
     if not A.is_linear:
@@ -73,7 +73,7 @@ def check_operator(ctx, name, A, rng, comp=None, variant=None):
             a = 1.7
             lhs = util.to_cvec(op.range, op(a * x + y))
             rhs = a * util.to_cvec(op.range, op(x)) + util.to_cvec(op.range, op(y))
-            if not np.allclose(lhs, rhs, rtol=1e-9, atol=1e-9 * max(1.0, np.abs(rhs).max() if rhs.size else 1.0)):
+            if not np.allclose(lhs, rhs, rtol=lin_tol, atol=lin_tol * max(1.0, np.abs(rhs).max() if rhs.size else 1.0)):
                 ctx.violation(comp, cfgv, side + '-not-additive', name=name)
                 return
         ctx.ev('gram-identity')
@@ -196,6 +196,52 @@ def run_registry(ctx):
         wrapper_rules(ctx, name, A, rng)
 
 
+def run_explicit_spaces(ctx):
+    """Operators built with an explicitly given second space that is *not* the default one: a single-precision twin of the
+    domain on dyadic grids (all stencil values are exactly representable, so the Gram matrices stay exact), and block
+    operators with an explicitly given constant-weighted product space (refused today: if one is accepted, its adjoint has to
+    satisfy the identity in those weighted spaces)."""
+    rng = ctx.rng('explicit-spaces')
+    recipes = []
+    for n, sp in (('d4', odl.uniform_discr(0, 2, 4)), ('d24', odl.uniform_discr([0, 0], [1, 2], (2, 4))), ('d4c', odl.uniform_discr(0, 2, 4, dtype=complex))):
+        lo = sp.astype('complex64' if sp.is_complex else 'float32')
+        for pad in ('constant', 'symmetric', 'periodic', 'order0'):
+            recipes.append(('Laplacian/range=single-twin/%s/%s' % (pad, n), lambda sp=sp, lo=lo, pad=pad: odl.Laplacian(sp, range=lo, pad_mode=pad)))
+            recipes.append(('PartialDerivative/range=single-twin/%s/%s' % (pad, n), lambda sp=sp, lo=lo, pad=pad: odl.PartialDerivative(sp, axis=sp.ndim - 1, range=lo, pad_mode=pad)))
+            recipes.append(('Gradient/range=single-twin/%s/%s' % (pad, n), lambda sp=sp, lo=lo, pad=pad: odl.Gradient(sp, range=lo ** sp.ndim, pad_mode=pad)))
+            recipes.append(('Divergence/range=single-twin/%s/%s' % (pad, n), lambda sp=sp, lo=lo, pad=pad: odl.Divergence(domain=sp ** sp.ndim, range=lo, pad_mode=pad)))
+            recipes.append(('Laplacian/domain=single-twin/%s/%s' % (pad, n), lambda sp=sp, lo=lo, pad=pad: odl.Laplacian(lo, range=sp, pad_mode=pad)))
+    r3, r2 = odl.rn(3), odl.rn(2)
+    A = odl.MatrixOperator(rng.normal(size=(2, 3)), r3, r2)
+    B = odl.MatrixOperator(rng.normal(size=(3, 3)), r3, r3)
+    I2 = odl.IdentityOperator(r2)
+    for wd, wr in ((2.5, None), (None, 0.4), (2.5, 2.5), (2.5, 0.4)):
+        kw = {}
+        if wd is not None:
+            kw['domain'] = odl.ProductSpace(r3, r2, weighting=wd)
+        if wr is not None:
+            kw['range'] = odl.ProductSpace(r2, r3, weighting=wr)
+        tag = 'dom-w=%s;ran-w=%s' % (wd, wr)
+        recipes.append(('ProductSpaceOperator/explicit-const-weighted/' + tag, lambda kw=kw: odl.ProductSpaceOperator([[A, 0], [B, 0]], **kw)))
+        recipes.append(('ProductSpaceOperator/explicit-const-weighted-full/' + tag, lambda kw=kw: odl.ProductSpaceOperator([[A, I2], [B, A.adjoint]], **kw)))
+    for wd in (2.5, 0.4):
+        recipes.append(('DiagonalOperator/explicit-const-weighted/dom-w=%s' % wd,
+                        lambda wd=wd: odl.DiagonalOperator(A, I2, domain=odl.ProductSpace(r3, r2, weighting=wd))))
+    for i, (name, thunk) in enumerate(recipes):
+        if not ctx.mine(i):
+            continue
+        try:
+            op = thunk()
+        except (NotImplementedError, odl.OpNotImplementedError):
+            ctx.skip('construction with these explicit spaces is refused (not implemented)')
+            continue
+        except Exception as e:
+            ctx.ev('adjoint-typing')
+            ctx.violation(name.split('/')[0], '/'.join(name.split('/')[1:-1]), 'ctor-raises:' + type(e).__name__, name=name, message=str(e)[:200])
+            continue
+        check_operator(ctx, name, op, rng, lin_tol=1e-5 if 'single-twin' in name else 1e-9)
+
+
 def run_trees(ctx):
     """Random linear expression trees from the C04 generator (linear leaves only)."""
     rng = ctx.rng('trees')
@@ -234,6 +280,7 @@ def run(ctx):
                 cov.add(vars(c).get('adjoint'), '%s.adjoint' % cname)
     cov.arm()
     run_registry(ctx)
+    run_explicit_spaces(ctx)
     run_trees(ctx)
     cov.disarm()
     n_exec, n_hit, unreached = cov.report()
